@@ -31,10 +31,17 @@ theorem C17_routes_served :
     ∀ (routes : List Route) (r : Route), r ∈ routes →
     (routes.map (fun x => (x.method, x.path))).Nodup → dispatch routes r.method r.path = .handler r.handler := Proofs.C17_routes_served
 
-/-- every other method/path combination is rejected by the router: 405 when the path is registered for other methods only, 404 otherwise. -/
+/-- every other method/path combination is rejected by the router: 405 when only patterns of other methods match the path (exactly, or as a subtree pattern ending in "/"), 404 otherwise. -/
 theorem C17_others_rejected :
+    ∀ (routes : List Route) (m p : String), (∀ r ∈ routes, ¬ (r.method = m ∧ patMatches r.path p = true)) →
+    dispatch routes m p = (if routes.any (fun r => patMatches r.path p) then .methodNotAllowed else .notFound) := Proofs.C17_others_rejected
+
+/-- a route registered with a trailing slash serves the whole subtree below it: a path that is not itself registered for the method is answered by the handler of the longest registered subtree pattern of that method that contains it. -/
+theorem C17_subtree_served :
     ∀ (routes : List Route) (m p : String), (∀ r ∈ routes, ¬ (r.method = m ∧ r.path = p)) →
-    dispatch routes m p = (if routes.any (fun r => r.path == p) then .methodNotAllowed else .notFound) := Proofs.C17_others_rejected
+    ∀ q, longest (routes.filter (fun r => r.method == m && r.path.endsWith "/" && p.startsWith r.path)) = some q →
+    dispatch routes m p = .handler q.handler ∧ q ∈ routes ∧ q.method = m ∧ p.startsWith q.path = true ∧
+    ∀ r ∈ routes, r.method = m → r.path.endsWith "/" = true → p.startsWith r.path = true → r.path.length ≤ q.path.length := Proofs.C17_subtree_served
 
 /-- each configured listener installs the router built from its own routes (HTTP and HTTPS alike), and answers through it. -/
 theorem C17_each_listener_has_its_router :
